@@ -1661,3 +1661,227 @@ Proof.
   - split; [reflexivity|]. intros _. destruct (fw_hex_to_int s n) as [ws|e] eqn:E; [|eauto].
     assert (X : hex_request_ok s n = true) by (apply fw_hex_to_int_ok_iff; eauto). congruence.
 Qed.
+
+(* ================================================================ N. the reboot reply of handle_set *)
+
+Definition reboot_msg (n : Z) : msg := mkMsg n 255 3 0 13 [].
+
+Section SetReboot.
+  Variable orc : oracles.
+  Variable clock : Z.
+
+  Lemma is_sensor_known_child g n c nd :
+    get_node g n = Some nd -> zhas c (n_children nd) = true -> is_sensor g n (Some c) = Ok (g, true).
+  Proof. intros G Z. unfold is_sensor. rewrite G, Z. reflexivity. Qed.
+
+  (* set message from a KNOWN child: value stored, alert, and the reboot request iff the flag is set *)
+  Theorem handle_set_known_child g m nd :
+    tabfacts (tab g) (cf_ge20 (g_cf g)) -> wire_ok (m_payload m) = true ->
+    get_node g (m_node m) = Some nd -> zhas (m_child m) (n_children nd) = true ->
+    handle_set g m =
+      Ok (alert (put_node g (update_child_value nd (m_child m) (m_sub m) (m_payload m))) m,
+          if n_reboot nd then Some (reboot_msg (m_node m)) else None).
+  Proof.
+    intros TF W G Z. unfold handle_set. rewrite (is_sensor_known_child g _ _ nd G Z). cbn [bind negb].
+    rewrite G. destruct (update_child_value_fields nd (m_child m) (m_sub m) (m_payload m)) as (_ & -> & _).
+    destruct (n_reboot nd); [|reflexivity].
+    unfold internal_member. rewrite (tf_reboot _ _ TF). cbn [of_option bind].
+    rewrite (copy_spec _ _ W). cbn [bind]. rewrite (tf_internal _ _ TF). reflexivity.
+  Qed.
+
+  (* set message for a child the gateway does not know: no reboot request (no reply at all) *)
+  Theorem handle_set_unknown_child g m g1 r :
+    (forall nd, get_node g (m_node m) = Some nd -> zhas (m_child m) (n_children nd) = false) ->
+    handle_set g m = Ok (g1, r) -> r = None.
+  Proof.
+    intros U. unfold handle_set.
+    destruct (is_sensor g (m_node m) (Some (m_child m))) as [[g2 b]|e] eqn:E; cbn [bind]; [|discriminate].
+    destruct b; cbn [negb]; [|intro H; inversion H; reflexivity].
+    apply is_sensor_true in E as (_ & nd & G & K). specialize (K _ eq_refl). rewrite (U nd G) in K. discriminate.
+  Qed.
+
+  (* at the level of the dispatcher: answered at once when the node is awake, queued for its
+     next wake-up when it is a smart-sleep node *)
+  Theorem logic_set_reboot g l m nd :
+    cfg_ok (g_cf g) -> ids_ok g -> decode l = Some m -> gvalidate orc g m = true -> m_type m = 1 ->
+    get_node g (m_node m) = Some nd -> zhas (m_child m) (n_children nd) = true -> n_reboot nd = true ->
+    exists g', logic orc clock g l =
+                 Ok (g', if sleeping nd then None else Some (encode (reboot_msg (m_node m)))) /\
+      frame g g' /\
+      (sleeping nd = true -> exists nd', get_node g' (m_node m) = Some nd' /\
+           n_queue nd' = n_queue nd ++ [encode (reboot_msg (m_node m))]).
+  Proof.
+    intros C I D V T G Z RB. pose proof (tabfacts_of_cfg g C) as TF.
+    pose proof (decoded_payload_wire_ok _ _ D) as W.
+    destruct (logic_dispatch orc clock g l m C D V) as (h & HC & EL).
+    assert (h = HSet) by (destruct HC as [[A B]|[[A B]|[[A B]|[[A B]|[A B]]]]]; congruence). subst h.
+    rewrite EL. unfold run_handler, post_route. rewrite (handle_set_known_child g m nd TF W G Z), RB. cbn [bind].
+    set (nd1 := update_child_value nd (m_child m) (m_sub m) (m_payload m)).
+    destruct (update_child_value_fields nd (m_child m) (m_sub m) (m_payload m)) as (U1 & U2 & U3). fold nd1 in U1, U2, U3.
+    set (g1 := alert (put_node g nd1) m).
+    assert (F1 : frame g g1).
+    { eapply frame_trans; [eapply frame_put; [exact G|exact U1|exact U2]|apply frame_alert]. }
+    assert (G1 : get_node g1 (m_node m) = Some nd1).
+    { unfold g1, get_node. destruct (alert_frame (put_node g nd1) m) as (-> & _).
+      fold (get_node (put_node g nd1) (m_node m)). rewrite get_node_put, U1, (ids_ok_get g _ _ I G), Z.eqb_refl.
+      reflexivity. }
+    unfold route_opt, route. cbn [m_type m_node reboot_msg].
+    assert (TG : tab g1 = tab g) by (unfold tab; destruct F1 as (_ & -> & _); reflexivity).
+    rewrite TG, (tf_presentation _ _ TF), (tf_stream _ _ TF), G1, U3. cbn [Z.eqb orb].
+    destruct (sleeping nd) eqn:SL; cbn [negb].
+    - eexists. split; [reflexivity|]. split.
+      + eapply frame_trans; [exact F1|]. eapply frame_put; [exact G1|reflexivity|reflexivity].
+      + intros _. eexists. rewrite get_node_put. cbn [n_id]. rewrite U1, (ids_ok_get g _ _ I G), Z.eqb_refl.
+        split; [reflexivity|]. cbn [n_queue]. unfold nd1, update_child_value.
+        destruct (zassoc (m_child m) (n_children nd)); [|reflexivity].
+        destruct (zassoc (m_child m) (n_new nd)); reflexivity.
+    - exists g1. split; [reflexivity|]. split; [exact F1|discriminate].
+  Qed.
+
+  Theorem logic_set_no_reboot g l m nd :
+    cfg_ok (g_cf g) -> decode l = Some m -> gvalidate orc g m = true -> m_type m = 1 ->
+    get_node g (m_node m) = Some nd -> zhas (m_child m) (n_children nd) = true -> n_reboot nd = false ->
+    exists g', logic orc clock g l = Ok (g', None).
+  Proof.
+    intros C D V T G Z RB. pose proof (tabfacts_of_cfg g C) as TF.
+    pose proof (decoded_payload_wire_ok _ _ D) as W.
+    destruct (logic_dispatch orc clock g l m C D V) as (h & HC & EL).
+    assert (h = HSet) by (destruct HC as [[A B]|[[A B]|[[A B]|[[A B]|[A B]]]]]; congruence). subst h.
+    rewrite EL. unfold run_handler, post_route. rewrite (handle_set_known_child g m nd TF W G Z), RB. cbn [bind].
+    eexists. reflexivity.
+  Qed.
+End SetReboot.
+
+(* ================================================================ O. which lines are answered with stream messages *)
+Section Gating.
+  Variable orc : oracles.
+  Variable clock : Z.
+
+  Lemma route_some g m g' x : route g m = (g', Some x) -> x = m.
+  Proof.
+    unfold route. destruct (m_type m =? vt_presentation (tab g)); [discriminate|].
+    destruct (get_node g (m_node m)) as [nd|]; [|intro H; inversion H; reflexivity].
+    destruct ((m_type m =? vt_stream (tab g)) || negb (sleeping nd)); [intro H; inversion H; reflexivity|discriminate].
+  Qed.
+
+  Lemma copy_type m r x : wire_ok (m_payload m) = true -> copy m r = Ok x -> m_type x = ov (r_type r) (m_type m).
+  Proof. intros W. rewrite (copy_spec _ _ W). intro H; inversion H. reflexivity. Qed.
+
+  Lemma run_leaf_reply_type h g m g' x : is_fw_leaf h = false -> wire_ok (m_payload m) = true ->
+    run_leaf orc clock h g m = Ok (g', Some x) -> m_type x = m_type m.
+  Proof.
+    intros NF W. destruct h; try discriminate NF; unfold run_leaf; try discriminate.
+    - unfold handle_id_request. destruct (next_id g) as [nid|]; [|discriminate].
+      destruct (negb (zhas nid (g_sensors (add_sensor g nid)))); [discriminate|].
+      destruct (internal_member g "I_ID_RESPONSE"); cbn [bind]; [|discriminate].
+      destruct (copy m _) eqn:E; cbn [bind]; [|discriminate]. intro H; inversion H; subst.
+      apply (copy_type _ _ _ W E).
+    - unfold handle_config. destruct (copy m _) eqn:E; cbn [bind]; [|discriminate]. intro H; inversion H; subst.
+      apply (copy_type _ _ _ W E).
+    - unfold handle_time. destruct (copy m _) eqn:E; cbn [bind]; [|discriminate]. intro H; inversion H; subst.
+      apply (copy_type _ _ _ W E).
+    - unfold node_attr_handler. destruct (is_sensor g (m_node m) None) as [[g1 b]|]; cbn [bind]; [|discriminate].
+      destruct (negb b); [discriminate|]. destruct (get_node g1 (m_node m)); discriminate.
+    - unfold node_attr_handler. destruct (is_sensor g (m_node m) None) as [[g1 b]|]; cbn [bind]; [|discriminate].
+      destruct (negb b); [discriminate|]. destruct (get_node g1 (m_node m)); discriminate.
+    - unfold node_attr_handler. destruct (is_sensor g (m_node m) None) as [[g1 b]|]; cbn [bind]; [|discriminate].
+      destruct (negb b); [discriminate|]. destruct (get_node g1 (m_node m)); discriminate.
+    - unfold handle_gateway_ready_20. destruct (internal_member g "I_DISCOVER"); cbn [bind]; [|discriminate].
+      destruct (copy m _) eqn:E; cbn [bind]; [|discriminate]. intro H; inversion H; subst.
+      apply (copy_type _ _ _ W E).
+    - unfold handle_heartbeat_response.
+      destruct (is_sensor g (m_node m) None) as [[g1 b]|]; cbn [bind]; [|discriminate].
+      destruct (negb b); [discriminate|]. destruct (get_node g1 (m_node m)); [|discriminate].
+      destruct (handle_smartsleep orc g1 n) as [g2|]; cbn [bind]; [|discriminate].
+      destruct (get_node g2 (m_node m)); discriminate.
+    - unfold handle_discover_response. destruct (is_sensor g (m_node m) None); cbn [bind]; discriminate.
+    - unfold node_attr_handler. destruct (is_sensor g (m_node m) None) as [[g1 b]|]; cbn [bind]; [|discriminate].
+      destruct (negb b); [discriminate|]. destruct (get_node g1 (m_node m)); discriminate.
+    - unfold handle_pre_sleep. destruct (is_sensor g (m_node m) None) as [[g1 b]|]; cbn [bind]; [|discriminate].
+      destruct (negb b); [discriminate|]. destruct (get_node g1 (m_node m)); [|discriminate].
+      destruct (handle_smartsleep orc g1 n); cbn [bind]; discriminate.
+  Qed.
+
+  (* an accepted line that is not a stream message is never answered with a stream message *)
+  Theorem non_stream_reply g l m g' rl :
+    cfg_ok (g_cf g) -> decode l = Some m -> gvalidate orc g m = true -> m_type m <> 4 ->
+    logic orc clock g l = Ok (g', Some rl) -> exists x, rl = encode x /\ m_type x <> 4.
+  Proof.
+    intros C D V NS. pose proof (tabfacts_of_cfg g C) as TF.
+    pose proof (decoded_payload_wire_ok _ _ D) as W.
+    destruct (logic_dispatch orc clock g l m C D V) as (h & HC & EL). rewrite EL. unfold post_route.
+    destruct (run_handler orc clock h g m) as [[g1 reply]|e] eqn:RH; cbn [bind]; [|discriminate].
+    destruct reply as [x|]; [|cbn; discriminate].
+    unfold route_opt. destruct (route g1 x) as [g2 routed] eqn:RT.
+    destruct routed as [y|]; [|cbn; discriminate].
+    apply route_some in RT. subst y. cbn [option_map]. intro H; inversion H; subst. exists x. split; [reflexivity|].
+    destruct HC as [[A B]|[[A B]|[[A B]|[[A B]|[A B]]]]]; subst h; unfold run_handler in RH; [| | | |contradiction].
+    - unfold handle_presentation in RH. destruct (m_child m =? system_child_id).
+      + destruct (get_node (add_sensor g (m_node m)) (m_node m)); [|discriminate]. inversion RH; subst. lia.
+      + destruct (is_sensor g (m_node m) None) as [[g3 b]|]; cbn [bind] in RH; [|discriminate].
+        destruct (negb b); [discriminate|]. destruct (get_node g3 (m_node m)) as [nd|]; [|discriminate].
+        destruct (zhas (m_child m) (n_children nd)); [discriminate|]. inversion RH; subst. lia.
+    - unfold handle_set in RH.
+      destruct (is_sensor g (m_node m) (Some (m_child m))) as [[g3 b]|]; cbn [bind] in RH; [|discriminate].
+      destruct (negb b); [discriminate|]. destruct (get_node g3 (m_node m)) as [nd|]; [|discriminate].
+      destruct (n_reboot _); [|discriminate].
+      destruct (internal_member g "I_REBOOT"); cbn [bind] in RH; [|discriminate].
+      destruct (copy m _) eqn:E; cbn [bind] in RH; [|discriminate]. inversion RH; subst.
+      rewrite (copy_type _ _ _ W E). cbn. rewrite (tf_internal _ _ TF). lia.
+    - unfold handle_req in RH.
+      destruct (is_sensor g (m_node m) (Some (m_child m))) as [[g3 b]|]; cbn [bind] in RH; [|discriminate].
+      destruct (negb b); [discriminate|]. destruct (get_node g3 (m_node m)) as [nd|]; [|discriminate].
+      destruct (get_desired_value nd (m_child m) (m_sub m)); [|discriminate].
+      destruct (copy m _) eqn:E; cbn [bind] in RH; [|discriminate]. inversion RH; subst.
+      rewrite (copy_type _ _ _ W E). cbn. rewrite (tf_set _ _ TF). lia.
+    - unfold handle_internal in RH. rewrite A in RH.
+      destruct (sub_handler (tab g) 3 (m_sub m)) as [h|] eqn:SH; [|discriminate].
+      rewrite (run_leaf_reply_type h g m g1 x (tf_internal_handlers _ _ TF _ _ SH) W RH). lia.
+  Qed.
+
+  (* an accepted stream line is answered only when its node is known and scheduled, and only with
+     the response matching the request: config request in Requested/Offered -> config response
+     (sub-type 1); block request in Offered/Fetching -> block response (sub-type 3) *)
+  Theorem stream_reply_gated g l m g' rl :
+    cfg_ok (g_cf g) -> sess_inv (g_ota g) -> decode l = Some m -> gvalidate orc g m = true -> m_type m = 4 ->
+    logic orc clock g l = Ok (g', Some rl) ->
+    known g (m_node m) = true /\
+    exists x k, rl = encode x /\ m_node x = m_node m /\ m_type x = 4 /\
+      ((m_sub m = 0 /\ m_sub x = 1 /\
+        (abs (g_ota g) (m_node m) = Requested k \/ abs (g_ota g) (m_node m) = Offered k)) \/
+       (m_sub m = 2 /\ m_sub x = 3 /\
+        (abs (g_ota g) (m_node m) = Offered k \/ abs (g_ota g) (m_node m) = Fetching k))).
+  Proof.
+    intros C S D V T E.
+    destruct (known g (m_node m)) eqn:K.
+    2:{ rewrite (logic_stream_unknown orc clock g l m C D V T K) in E. discriminate. }
+    split; [reflexivity|].
+    destruct (stream_input m) as [i|] eqn:IN.
+    2:{ rewrite (logic_stream_other orc clock g l m C D V T K IN) in E. discriminate. }
+    destruct (logic_stream_request orc clock g l m i C S D V T K IN) as (g1 & EL & _).
+    rewrite EL in E. clear EL.
+    destruct (offer_reply (o_fw (g_ota g)) m (snd (sstep (abs (g_ota g) (m_node m)) i))) as [[x|]|e] eqn:OR;
+      cbn [bind option_map] in E; try discriminate.
+    inversion E; subst g1 rl. clear E.
+    destruct (offer_reply_shape _ _ _ _ OR) as (TX & NX & _ & _ & SH).
+    unfold stream_input in IN.
+    destruct (Z.eqb_spec (m_sub m) 0) as [S0|NS0].
+    - inversion IN; subst i. unfold cfg_input in *.
+      destruct (fw_hex_to_int (m_payload m) 5);
+        [|destruct SH as [(k & X & _)|(k & b & X & _)]; discriminate X].
+      destruct (abs (g_ota g) (m_node m)) as [|k|k|k] eqn:AB; cbn [sstep snd] in SH;
+        try (destruct SH as [(k' & X & _)|(k' & b & X & _)]; discriminate X).
+      all: exists x, k; split; [reflexivity|]; split; [exact NX|]; split; [congruence|]; left;
+           split; [exact S0|]; destruct SH as [(k' & X & SX)|(k' & b & X & _)]; [|discriminate X];
+           split; [exact SX|auto].
+    - destruct (Z.eqb_spec (m_sub m) 2) as [S2|NS2]; [|discriminate].
+      inversion IN; subst i. unfold blk_input in *.
+      destruct (fw_hex_to_int (m_payload m) 3) as [[|rt [|rv [|rb [|y z]]]]|];
+        try (destruct SH as [(k & X & _)|(k & b & X & _)]; discriminate X).
+      destruct (abs (g_ota g) (m_node m)) as [|k|k|k] eqn:AB; cbn [sstep snd] in SH;
+        try (destruct SH as [(k' & X & _)|(k' & b & X & _)]; discriminate X).
+      all: exists x, k; split; [reflexivity|]; split; [exact NX|]; split; [congruence|]; right;
+           split; [exact S2|]; destruct SH as [(k' & X & _)|(k' & b & X & SX)]; [discriminate X|];
+           split; [exact SX|auto].
+  Qed.
+End Gating.
